@@ -302,10 +302,13 @@ fn transport_direct_exec(case: &(bool, bool), ctx: &WorkerCtx) -> ExecResult {
             let Some(mut peer) = w.accept_peer().await else { res.violations.push(("no connection reached the peer".into(), json!({}))); return res; };
             if set_before_connect { t.set_frame_mode(mode); t.connect(stream); } else { t.connect(stream); t.set_frame_mode(mode); }
             let msg: Vec<u8> = (0..300u32).map(|i| (i % 251) as u8).collect();
-            let wr = t.write(&msg).await;
+            // a message, an empty message, a one-byte message
+            let wr = match t.write(&msg).await { Ok(()) => match t.write(&[]).await { Ok(()) => t.write(&[5]).await, e => e }, e => e };
             let no_probe = || 0u64;
             w.settle(&mut peer, &no_probe).await;
-            let want = frame(&msg, prefix);
+            let mut want = frame(&msg, prefix);
+            want.extend_from_slice(&frame(&[], prefix));
+            want.extend_from_slice(&frame(&[5], prefix));
             if wr.is_err() || peer.log != want { res.violations.push(("bytes written by the transport differ from the one-shot framing of the mode that was set".into(), json!({"mode": format!("{:?}", mode), "mode_set_before_connect": set_before_connect, "connection_number": round + 1, "written": vcore::report::hex(&peer.log[..peer.log.len().min(12)]), "expected_prefix": vcore::report::hex(&want[..prefix])}))); return res; }
             peer.send(&frame(&[9, 8, 7], prefix)); peer.send(&frame(&[], prefix));
             let r1 = { let fut = t.read(); tokio::pin!(fut); let mut out = None; for _ in 0..5000 { tokio::select! { biased; r = &mut fut => { out = Some(r); break; }, _ = tokio::task::yield_now() => { w.beat(); } } } out };
